@@ -64,7 +64,7 @@ def shared_grid(nrows=12):
 def fresh_filters(n, salt, nrows=12):
     """n (text, predicate) pairs with texts never used before in this process.  Kinds: number literal, ordering + marker,
     negation, a->b path through the id index of the grid, bool literal (Python-equal to number literals of other filters),
-    date / quantity / date-time / Ref literals, and pairs made of the same tokens but grouped differently
+    date / quantity / date-time / Ref literals, filters that differ only in the kind of a literal (true / 1 / 1kW), and pairs made of the same tokens but grouped differently
     ('(k or n == v) and n != w ...' vs 'k or n == v and n != w ...': different meaning, same print-out)."""
     import datetime
     out = []
@@ -79,7 +79,7 @@ def fresh_filters(n, salt, nrows=12):
     while len(out) < n:
         u = next(_COUNTER)
         v = (salt + i) % 6
-        kind = (salt + i) % 11
+        kind = (salt + i) % 12
         i += 1
         z = 'zz%d_%d' % (salt, u)
         if kind == 0:
@@ -103,6 +103,21 @@ def fresh_filters(n, salt, nrows=12):
                         lambda rows, r, lim=lim: r['t'].tzinfo is not None and r['t'] < lim))
         elif kind == 8:
             out.append(('r == @id%d and not %s' % (v % nrows, z), lambda rows, r, v=v: r['r'].name == 'id%d' % (v % nrows)))
+        elif kind == 11:
+            # filters that differ in nothing but the *kind* of a literal whose values Python calls equal (true / 1, 1 / 1kW,
+            # false / 0): a bool cell never equals a number, a number cell never equals a quantity or a bool
+            which = (salt + u) % 3
+            if which == 0:
+                out.append(('f == true and n != %d and not %s' % (v, z), lambda rows, r, v=v: r['f'] is True and r['n'] != v))
+                out.append(('f == 1 and n != %d and not %s' % (v, z), lambda rows, r: False))
+            elif which == 1:
+                out.append(('n == 1 and not %s' % z, lambda rows, r: r['n'] == 1))
+                out.append(('n == true and not %s' % z, lambda rows, r: False))
+                out.append(('n == 1kW and not %s' % z, lambda rows, r: False))
+            else:
+                out.append(('f == 0 and not %s' % z, lambda rows, r: False))
+                out.append(('f == false and not %s' % z, lambda rows, r: r['f'] is False))
+                out.append(('n == 0 and not %s' % z, lambda rows, r: r['n'] == 0))
         elif kind == 10:
             # two filters that differ in nothing but the value of a literal
             v2 = (v + 1) % 6
